@@ -4,6 +4,8 @@ import PkgProofs.Lemmas.PyStr
 import PkgProofs.Lemmas.ScanStr
 import PkgProofs.Props.Src.SpecCompare
 import PkgProofs.Props.Src.Specifier
+import PkgProofs.Lemmas.SrcRobust
+import PkgProofs.Lemmas.SrcLoops
 /-!
 # Translated source of `_version_split`, `canonicalize_version`, `Specifier._compare_equal`, `_compare_not_equal`,
 `_compare_compatible` = the model (`S.versionSplit`, `V.canonicalizeVersion`, `S.compareEqual`, …)
@@ -58,54 +60,56 @@ theorem re_search_prefix (s : Str) :
   simp only [re_search, rx_prefix_eq, pure_ok]
   cases S.prefixRegex s <;> rfl
 
-theorem version_split_loop (items : List Str) : ∀ (m : PyVal) (res : List Str), ∃ m',
-    forIn (items.map PyVal.str) ((m, PyVal.list (res.map .str)) : PyVal × PyVal) (fun item r => do
-      let «match» ← PyRt.re_search "^([0-9]+)((?:a|b|c|rc)[0-9]+)$" item
-      if PyRt.truthy «match» = true then do
-        let result ← PyRt.list_extend r.2 (← PyRt.match_groups «match»)
-        pure (ForInStep.yield («match», result))
-      else do
-        let result ← PyRt.list_append r.2 item
-        pure (ForInStep.yield («match», result)))
-    = .ok (m', PyVal.list ((res ++ items.flatMap fun item =>
-        match S.prefixRegex item with | some (a, b) => [a, b] | none => [item]).map .str)) := by
-  induction items with
-  | nil => intro m res; exact ⟨m, by simp⟩
-  | cons x xs ih =>
-    intro m res
-    rw [List.map_cons, List.forIn_cons, re_search_prefix]
-    cases hp : S.prefixRegex x with
-    | none =>
-      obtain ⟨m', h⟩ := ih PyVal.none (res ++ [x])
-      refine ⟨m', ?_⟩
-      simp only [ok_bind, truthy_none, Bool.false_eq_true, if_false, list_append_list, pure_bind]
-      simp only [List.map_append, List.map_cons, List.map_nil] at h
-      rw [h]
-      simp [List.flatMap_cons, hp]
-    | some ab =>
-      obtain ⟨a, b⟩ := ab
-      obtain ⟨m', h⟩ := ih (.obj "re.Match" [("groups", .tuple [.str a, .str b])]) (res ++ [a, b])
-      refine ⟨m', ?_⟩
-      simp only [ok_bind, truthy_obj, if_true, match_groups_match, list_extend_list_tuple, pure_bind]
-      simp only [List.map_append, List.map_cons, List.map_nil] at h
-      rw [h]
-      simp [List.flatMap_cons, hp]
+/-- what one item of `rest.split(".")` adds to the components -/
+def splitItem (item : Str) : List Str :=
+  match S.prefixRegex item with | some (a, b) => [a, b] | none => [item]
 
-/-- `_version_split(version)` for every string -/
+/-- the loop of `_version_split` followed by the `return`, over an abstract body that does what one iteration does to the
+list being built (`proj`: where that list lives in the loop state) -/
+theorem version_split_bind {σ : Type} (proj : σ → PyVal) (body : PyVal → σ → M (ForInStep σ)) (k : σ → M PyVal)
+    (hstep : ∀ (item : Str) (s : σ) (res : List Str), proj s = .list (res.map .str) →
+      ∃ s', body (.str item) s = .ok (.yield s') ∧ proj s' = .list ((res ++ splitItem item).map .str))
+    (hk : ∀ s' l, proj s' = .list l → k s' = .ok (.list l)) :
+    ∀ (items : List Str) (s : σ) (res : List Str), proj s = .list (res.map .str) →
+      (forIn (items.map PyVal.str) s body >>= k) = .ok (.list ((res ++ items.flatMap splitItem).map .str)) := by
+  intro items
+  induction items with
+  | nil => intro s res hs; simp [hk s _ hs]
+  | cons x xs ih =>
+    intro s res hs
+    obtain ⟨s', h1, h2⟩ := hstep x s res hs
+    have := ih s' _ h2
+    simp only [List.map_cons, List.forIn_cons, h1, ok_bind, List.flatMap_cons]
+    simpa [List.append_assoc] using this
+
+/-- `_version_split(version)` for every string.  The loop is handed to `version_split_bind`: the proof names neither its
+body nor the number of its mutable locals (the list being built is the one declared last). -/
 theorem _version_split_eq_model (s : Str) :
     Gen.PySrc._version_split (.str s) = .ok (ofStrs (S.versionSplit s)) := by
   unfold Gen.PySrc._version_split
   simp only [show ofString "!" = [33] from rfl, show ofString "." = [46] from rfl, str_rpartition_single, ok_bind,
     unpack3, iterate_tuple, pure_bind, list_append_list, List.nil_append, str_split_single, iterate_list]
-  obtain ⟨m', h⟩ := version_split_loop (Py.splitOn 46 (S.rpartition 33 s).2.2) PyVal.unbound
-    [if (S.rpartition 33 s).1.isEmpty then [48] else (S.rpartition 33 s).1]
-  have he : or_ (PyVal.str (S.rpartition 33 s).1) (PyVal.str (ofString "0")) =
-      PyVal.str (if (S.rpartition 33 s).1.isEmpty then [48] else (S.rpartition 33 s).1) := by
-    cases hh : (S.rpartition 33 s).1 <;> simp [or_, ofString]
-  simp only [List.map_cons, List.map_nil] at h
-  rw [he, h]
-  simp only [ok_bind, pure_ok, S.versionSplit, ofStrs]
-  rfl
+  have hfin : S.versionSplit s = [if (S.rpartition 33 s).1.isEmpty then [48] else (S.rpartition 33 s).1] ++
+      (Py.splitOn 46 (S.rpartition 33 s).2.2).flatMap splitItem := by
+    simp only [S.versionSplit, splitItem]; rfl
+  rw [hfin]
+  cases hh : (S.rpartition 33 s).1 <;>
+    simp only [or_, truthy_str, List.isEmpty_nil, List.isEmpty_cons, Bool.not_true, Bool.not_false, Bool.false_eq_true, if_true, if_false,
+      pure_ok, ok_bind, show ofString "0" = [48] from rfl] <;>
+    (refine version_split_bind LastPy.last _ _ ?_ ?_ _ _ [_] rfl
+     · intro item st res hst
+       simp only [LastPy.last] at hst
+       simp only [re_search_prefix, splitItem, ok_bind]
+       cases hp : S.prefixRegex item with
+       | none =>
+         src_simp [hst, list_append_list, LastPy.last]
+       | some ab =>
+         obtain ⟨a, b⟩ := ab
+         src_simp [hst, match_groups_match, list_extend_list_tuple, list_extend_list_list, unpack2, iterate_tuple, LastPy.last,
+           show ∀ c f, isNone (PyVal.obj c f) = false from fun _ _ => rfl]
+     · intro s' l hs'
+       simp only [LastPy.last] at hs'
+       simp [hs'])
 
 /-! ### `canonicalize_version` (the two `functools.singledispatch` implementations) -/
 
@@ -269,8 +273,7 @@ theorem Specifier._compare_compatible_eq_model (self : PyVal) (p : Ver) (hp : WF
       cases hge : S.compareGE p spec with
       | error e => rfl
       | ok ge =>
-        cases ge
-        · rfl
-        · simp only [Except.map, ok_bind, truthy_bool, if_true, Specifier._compare_equal_eq_model self p hp]
+        cases ge <;> cases hce : S.compareEqual p (j ++ [46, 42]) <;>
+          src_simp [Specifier._compare_equal_eq_model self p hp, hce]
 
 end Src
